@@ -92,6 +92,11 @@ P = {
         note="Effect names prefix-free (hypothesis); caller-level finding F12 recorded.",
         tech="Coq proof (NoDup / first-observed-level arguments on sorted distinct levels) + differential correspondence on every matrix entry",
         ref="DESIGN.md section 5 C16"),
+    "C15": dict(
+        text="Theorem for every group structure and every number of aggregate levels: the recursion of GaussianModel.fit followed by the matching loop gives each group with outstanding units exactly the calibration set named by the rule (own group if it holds >= min(10, all) calibration units, else its parent's, ..., else all), never a sibling's; the bounds are the summed unadjusted bounds shifted by the normal quantile at (3+alpha)/4 of the aggregated centre and scale. Correspondence: gaussian runs with captured calibration frames / matched model rows; the level used is identified through recomputed statistics and compared inside Coq with assign/rule.",
+        note="_fit statistics, norm.ppf and scipy bootstrap are oracles; indistinguishable candidate levels all accepted.",
+        tech="Coq proof by induction over aggregate levels (first-match lookup lemmas) + differential correspondence via calibration fingerprints",
+        ref="DESIGN.md section 5 C15"),
 }
 
 REASON_NOT_BUILT = "check not built yet in this development stage (planned: see DESIGN.md section 5)"
